@@ -114,15 +114,17 @@ Fixpoint ids_distinct (l : list N) : bool := match l with [] => true | x :: r =>
 (* 0 = the run is a path of `reach`, the answer is the last statement's answer and a top-k selection of all matching traces;
    otherwise (code, step, expected, got): 1-4 as above; 5 = the answer differs from the last statement's rows; 6 = the answer is not a
    top-`limit` selection of the matching traces of the window (the property itself, judged on the observed answer);
-   7 = the case is outside the theorem's hypotheses (ids not distinct / limit 0 / number of statements <> portions) *)
+   7 = the case is outside the theorem's hypotheses (ids not distinct / limit 0); 8 = the loop sent another number of statements than
+   there are portions (expected, got) *)
 Definition loop_code (c : loop_case) : Z * N * Z * Z :=
-  if negb (ids_distinct (map tid (lc_all c)) && Nat.ltb 0 (lc_k c) && N.eqb (N.of_nat (List.length (lc_steps c))) (lc_portions c)) then (7, 0%N, 0, 0)%Z
+  if negb (ids_distinct (map tid (lc_all c)) && Nat.ltb 0 (lc_k c)) then (7, 0%N, 0, 0)%Z
   else
   let part := part_of (lc_parts c) in
   match run_model (lc_all c) part (lc_k c) (lc_portions c) 0%N [] (lc_from0 c) (lc_steps c) with
   | RunBad st code e g => (code, st, e, g)
   | RunOk n W f =>
-      if negb (list_N_eqb (lc_final c) (map tid W)) then (5, n, 0, 0)%Z
+      if negb (N.eqb n (lc_portions c)) then (8%Z, n, Z.of_N (lc_portions c), Z.of_N n)
+      else if negb (list_N_eqb (lc_final c) (map tid W)) then (5, n, 0, 0)%Z
       else if negb (topk_b (lc_k c) (U (lc_all c) part (lc_from0 c) n) W) then (6, n, 0, 0)%Z
       else (0, n, 0, 0)%Z
   end.
